@@ -34,6 +34,11 @@ Definition row_tied (r : sigrow) : bool := tied_to_self r && tied_to_guards r.
 Definition all_results_tied : bool := forallb (fun r => if borrow_row r then row_tied r else true) sigs.
 Definition untied : list (string * string) :=
   map (fun r => (g_ty r, g_name r)) (filter (fun r => borrow_row r && negb (row_tied r)) sigs).
+(* the converse half: a lookup key `Q` may be unsized (`str` for `String` keys), so that a borrowed
+   key never has to live as long as the stored one *)
+Definition lookup_keys_may_be_unsized : bool := forallb (fun r => negb (g_q_sized r)) sigs.
+Definition sized_lookup_keys : list (string * string) :=
+  map (fun r => (g_ty r, g_name r)) (filter g_q_sized sigs).
 Definition no_static_bounds : bool := forallb (fun r => negb (g_static r)) sigs.
 Definition borrow_rows : nat := List.length (filter borrow_row sigs).
 
@@ -59,9 +64,9 @@ Definition unbounded_inserters : list (string * string) :=
 
 Definition lookup_names : list string :=
   ["get"; "get_key_value"; "contains_key"; "contains"; "iter"; "keys"; "values"; "len"; "is_empty"; "guard"; "pin";
-   "with_guard"; "is_disjoint"; "is_subset"; "is_superset"].
+   "with_guard"; "is_disjoint"; "is_subset"; "is_superset"; "index"].
 Definition lookups_unbounded : bool :=
-  forallb (fun b => if mem (b_name b) lookup_names && collection_ty (b_ty b) && (b_trait b =? "")
+  forallb (fun b => if mem (b_name b) lookup_names && collection_ty (b_ty b) && ((b_trait b =? "") || (b_trait b =? "Index"))
                     then negb (b_k_send b || b_k_sync b || b_v_send b || b_v_sync b) else true) bounds.
 
 Definition binentry_conditional : bool :=
